@@ -231,8 +231,13 @@ class Core:
         path = [zbool(p) for p in st.path if not is_true(p)]
         if not is_true(live):
             path.append(zbool(live))
-        for bv, guard in reversed(self.binders):
-            goal = z3.ForAll([bv], z3.Implies(zbool(guard), goal))
+        if self.binders:
+            # path conditions may mention the bound variables: they belong under the quantifier
+            if path:
+                goal = z3.Implies(z3.And(*path) if len(path) > 1 else path[0], goal)
+            path = []
+            for bv, guard in reversed(self.binders):
+                goal = z3.ForAll([bv], z3.Implies(zbool(guard), goal))
         self.obligations.append(Obligation(name, kind, len(self.assumptions), path, goal, line, info))
         # assert-then-assume (exit-stage obligations are independent of each other: not assumed)
         if kind in ("post", "frame"):
@@ -240,9 +245,20 @@ class Core:
         if not self.binders:
             self.assume(z3.Implies(zbool(live), goal), st)
         else:
-            saved, self.binders = self.binders, []
-            self.assume(z3.Implies(zbool(live), goal), st)
-            self.binders = saved
+            self.assumptions.append(goal)       # already closed under the binders and the path
+
+    def probe(self, label, st):
+        """vacuity guard: `False` must NOT be provable here (DESIGN 3.5)"""
+        if self.dry or self.spec or self.binders:
+            return
+        name = "%s/probe:%s" % (self.prefix, label)
+        base, k = name, 1
+        while name in self.obl_names:
+            k += 1
+            name = "%s#%d" % (base, k)
+        self.obl_names.add(name)
+        path = [zbool(p) for p in st.path if not is_true(p)]
+        self.obligations.append(Obligation(name, "probe", len(self.assumptions), path, z3.BoolVal(False), None, None))
 
     def live(self, st):
         return znot(zor(st.ret, st.brk, st.cont))
